@@ -376,8 +376,11 @@ namespace GeographicLib {
      * @param[out] s arc seconds.
      **********************************************************************/
     static void Encode(real ang, real& d, real& m, real& s) {
-      d = int(ang); ang = real(Math::dm) * (ang - d);
-      m = int(ang); s = real(Math::ms) * (ang - m);
+      using std::trunc;
+      // trunc (instead of conversion to an int) handles huge, infinite, and
+      // NaN angles
+      d = trunc(ang); ang = real(Math::dm) * (ang - d);
+      m = trunc(ang); s = real(Math::ms) * (ang - m);
     }
 
   };
